@@ -81,3 +81,39 @@ Definition lsub (p : lslice) (a b : nat) : res lslice :=
 Definition lfrom (p : lslice) (a : nat) : res lslice :=
   bind (slfrom (lsl p) a) (fun s => Ok (mkL (loff p + a) s)).
 Definition lval (p : lslice) : value := VR (loff p) (len (lsl p)).
+
+(* ---- findings and the shape of the per-type theorems ---- *)
+(* A finding is a narrow decidable class (getter name, view) on which the real
+   code violates the property; its key is column 3 of the dispatch output. *)
+Record finding := mkFinding { f_key : string; f_pred : string -> slice -> bool }.
+Definition known_of (fs : list finding) (name : string) (v : slice) : bool :=
+  existsb (fun f => f_pred f name v) fs.
+Fixpoint key_of (fs : list finding) (name : string) (v : slice) : option string :=
+  match fs with
+  | [] => None
+  | f :: r => if f_pred f name v then Some (f_key f) else key_of r name v
+  end.
+Definition no_findings : list finding := [].
+
+(* C01: every getter of the table is panic-free, terminates, and the slices it
+   returns lie inside [0, len v) -- outside the known classes *)
+Definition getter_ok (v : slice) (g : getter) : Prop := safe (g v) /\ inside v (g v).
+Definition getter_okb (v : slice) (g : getter) : bool :=
+  negb (is_panic (g v)) && negb (is_fuel (g v)) && insideb v (g v).
+Definition getters_ok (fs : list finding) (t : gtable) (v : slice) : Prop :=
+  Forall (fun ng => known_of fs (fst ng) v = false -> getter_ok v (snd ng)) t.
+
+(* C02: every getter returns the value the spec table gives for the bytes of
+   the view (positions per RFC), outside the known classes.  The spec table
+   has the same names in the same order as the getter table. *)
+Definition spec := bytes -> value.
+Definition stable := list (string * spec).
+Definition getters_spec (fs : list finding) (t : gtable) (st : stable) (v : slice) : Prop :=
+  Forall2 (fun ng ns => fst ng = fst ns /\
+                        (known_of fs (fst ng) v = false -> snd ng v = Ok (snd ns (view v)))) t st.
+
+(* C01, second half of "stays inside the view": the result depends only on
+   the bytes within the length, for every capacity *)
+Definition getters_len_only (fs : list finding) (t : gtable) (v v' : slice) : Prop :=
+  Forall (fun ng => known_of fs (fst ng) v = false -> known_of fs (fst ng) v' = false ->
+                    snd ng v = snd ng v') t.
